@@ -43,7 +43,10 @@ RULE = ('cases = corpus + random requests (PATH_INFO, QUERY_STRING, Host, X-Forw
         'primitive stream (html.escape, html_escape, repr, json.dumps on random Unicode incl. surrogates and astral '
         'characters; the JSON reader of the spec against json.loads on valid and mutated texts); the thorough tier adds every single vocabulary item in every request position (path tail, query string, Host) x every kind x HTML/JSON and in every last-resort trigger (exhaustive over the vocabulary). non-trivial = an '
         'error response whose request-controlled parts contain at least one of < > & " \' { } \\ or a control / '
-        'non-ASCII character, or a primitive case with such a character; distinct by (kind, format, debug, request parts)')
+        'non-ASCII character, or a primitive case with such a character, or a sequence of 2-3 requests on ONE application '
+        'object (same URL asked as HTML then JSON, JSON then HTML, other query strings/hosts/kinds; every response must equal the '
+        'model\'s stateless answer and the answer of a fresh application) in which both formats are requested; distinct by '
+        '(kind, format, debug, request parts)')
 TRUSTED = [
     'section variable isprintable (Unicode table behind str.isprintable, consulted by repr for code points >= 128): '
     'arbitrary in every theorem; in the correspondence the harness supplies the non-printable code points of each case',
@@ -242,12 +245,14 @@ def _environ(case):
     return env
 
 
-def _call(case):
-    """one request on a fresh application -> everything observed"""
+def _call(case, app=None):
+    """one request (on a fresh application unless one is given) -> everything observed"""
     st = _setup()
     rec = st['rec']
     del rec[:]
-    app = _make_app(case)
+    if app is None:
+        app = _make_app(case)
+    app.c20_arg = None
     env = _environ(case)
     got = {}
 
@@ -358,9 +363,45 @@ def _prim_impl(case):
     raise ValueError(fn)
 
 
+def _step_case(case, i):
+    """request number i of a sequence as a stand-alone 'page' case"""
+    s = dict(case['steps'][i])
+    s['t'] = 'page'
+    s['debug'] = bool(case.get('debug'))
+    for k in ('msg', 'tyname'):
+        if k in case:
+            s[k] = case[k]
+    return s
+
+
+def _observe_seq(case):
+    """all requests of the case, in order, on ONE application object; each is
+    also sent to a fresh application (with its plain-letter twin) for the oracle"""
+    k = json.dumps(case, sort_keys=True)
+    if k not in _CACHE:
+        n = len(case['steps'])
+        app = _make_app(_step_case(case, 0))
+        steps = []
+        for i in range(n):
+            sc = _step_case(case, i)
+            o = _call(sc, app=app)
+            steps.append(o)
+        for i in range(n):
+            single = _observe(_step_case(case, i))
+            o = steps[i]
+            for f in ('twin_body', 'twin_status', 'twin_ctype', 'altmsg_body'):
+                if f in single:
+                    o[f] = single[f]
+            o['fresh'] = dict(status=single['status'], ctype=single['ctype'], body=single['body'])
+        _CACHE[k] = dict(steps=steps)
+    return _CACHE[k]
+
+
 def run_impl(case):
     if case['t'] == 'prim':
         return _prim_impl(case)
+    if case['t'] == 'seq':
+        return _observe_seq(case)
     return _observe(case)
 
 
@@ -369,6 +410,10 @@ def project(obs, case):
         if 'parsed' in obs:
             return dict(parsed=obs['parsed'])
         return obs
+    if case['t'] == 'seq':
+        if 'steps' not in obs:
+            return obs
+        return dict(steps=[dict(status=o['status'], ctype=o['ctype'], body=o['body']) for o in obs['steps']])
     if 'status' not in obs:
         return obs
     return dict(status=obs['status'], ctype=obs['ctype'], body=obs['body'])
@@ -418,6 +463,14 @@ def encode(case):
     if case['t'] == 'prim':
         tag = {'escape': 2, 'html_escape': 3, 'repr': 4, 'dumps': 5, 'loads': 6}[case['fn']]
         return [tag] + _nonprintable(case['s']) + _s(case['s'])
+    if case['t'] == 'seq':
+        obs = _observe_seq(case)
+        ints, strs = [], []
+        for i, o in enumerate(obs['steps']):
+            a, b = _page_payload(_step_case(case, i), o)
+            ints += a
+            strs += b
+        return [7] + _nonprintable(*strs) + [len(obs['steps'])] + ints
     o = _observe(case)
     url = o['url'] if o['url'] is not None else ''
     debug = 1 if case.get('debug') else 0
@@ -426,6 +479,14 @@ def encode(case):
         exc = o['crit_exc']
         strs = [tb, o['path_info_after']] + (exc[1:] if exc else [])
         return [1] + _nonprintable(*strs) + _opt(o['path_info_after']) + [debug] + _exc_enc(exc) + _s(tb)
+    ints, strs = _page_payload(case, o)
+    return [0] + _nonprintable(*strs) + ints
+
+
+def _page_payload(case, o):
+    """the model's view of one framework-error request: (ints, strings that occur in it)"""
+    url = o['url'] if o['url'] is not None else ''
+    debug = 1 if case.get('debug') else 0
     kind = case['kind']
     tb = None
     exc = None
@@ -444,7 +505,7 @@ def encode(case):
     if kind == 'type':
         kcode = [6] + _s(str(type(_type_obj(case.get('tyname', 'int')))))
     strs = [url, tb] + (exc[1:] if exc else [])
-    return [0] + _nonprintable(*strs) + kcode + _exc_enc(exc) + _opt(tb) + _s(url) + _opt(o['accept_seen']) + [debug]
+    return kcode + _exc_enc(exc) + _opt(tb) + _s(url) + _opt(o['accept_seen']) + [debug], strs
 
 
 def _str(r):
@@ -464,10 +525,15 @@ def decode(out, case):
                 return dict(parsed=r.list(member))
             return dict(parsed='bad' if tag == 1 else 'model_tag_%d' % tag)
         return dict(out=_str(r))
-    tag = r.int()
-    if tag == 0:
-        return dict(status=_str(r), ctype=_str(r), body=_str(r))
-    return dict(status='model_tag_%d' % tag)
+
+    def resp(q):
+        tag = q.int()
+        if tag == 0:
+            return dict(status=_str(q), ctype=_str(q), body=_str(q))
+        return dict(status='model_tag_%d' % tag)
+    if case['t'] == 'seq':
+        return dict(steps=r.list(resp))
+    return resp(r)
 
 
 # ---------------------------------------------------------------------------
@@ -485,6 +551,25 @@ def _request_parts(case):
 def oracle(case, obs):
     if case['t'] == 'prim':
         return _prim_oracle(case, obs)
+    if case['t'] == 'seq':
+        if 'steps' not in obs:
+            return 'no responses observed: %s' % obs
+        n = len(obs['steps'])
+        for i, o in enumerate(obs['steps']):
+            sc = _step_case(case, i)
+            f = _resp_oracle(sc, o)
+            if f is None and 'fresh' in o and (o['status'], o['ctype'], o['body']) != \
+                    (o['fresh']['status'], o['fresh']['ctype'], o['fresh']['body']):
+                f = ('answered %r / %r, but the same request on a fresh application is answered %r / %r%s: the response '
+                     'depends on earlier requests' % (o['status'], o['ctype'], o['fresh']['status'], o['fresh']['ctype'],
+                                                      '' if o['body'] != o['fresh']['body'] else ' (same body)'))
+            if f:
+                return 'request %d of %d on one application object (Accept %r): %s' % (i + 1, n, sc.get('accept'), f)
+        return None
+    return _resp_oracle(case, obs)
+
+
+def _resp_oracle(case, obs):
     if 'status' not in obs:
         return 'no response observed: %s' % obs
     body = obs['body']
@@ -586,6 +671,23 @@ def prim(fn, s):
     return dict(t='prim', fn=fn, s=s)
 
 
+SEQ_KINDS = [k for k in KINDS if k != 'map1']       # map1 needs its own application configuration
+STEP_KEYS = ('kind', 'tail', 'qs', 'host', 'xfh', 'xfp', 'script', 'port', 'server_name', 'accept', 'method')
+
+
+def step(kind, tail='x', qs='', **kw):
+    s = dict(kind=kind, tail=tail, qs=qs)
+    s.update(kw)
+    return _fit(s)
+
+
+def seq(steps, **kw):
+    """several requests answered by ONE application object, in this order"""
+    c = dict(t='seq', steps=list(steps), debug=kw.pop('debug', False))
+    c.update(kw)
+    return c
+
+
 XSS = '<script>alert(1)</script>'
 ATTR = '"><img src=x onerror=alert(1)>'
 
@@ -623,6 +725,19 @@ def corpus():
         out.append(crit(tr, tail=_wire(XSS + ATTR + "'&{0}"), qs='<q>'))
         out.append(crit(tr, tail=_wire(XSS), debug=True, msg='<b>handler</b> failed & "so" it\'s'))
         out.append(crit(tr, tail='plain'))
+    J = 'application/json'
+    for k in SEQ_KINDS:
+        # the same URL first as an HTML page then as JSON, and the other way round (seeded change C20-5)
+        out.append(seq([step(k, 'same', 'q=<b>', accept='text/html'), step(k, 'same', 'q=<b>', accept=J)], msg='m'))
+        out.append(seq([step(k, 'same', 'q=<b>', accept=J), step(k, 'same', 'q=<b>'), step(k, 'same', 'q=<b>', accept=J)],
+                       msg='m'))
+    out += [
+        seq([step('404', 'u', 'a=1'), step('404', 'u', 'a=<2>'), step('404', 'u', 'a=1', accept=J)]),
+        seq([step('404', 'u', XSS), step('405', 'u', XSS, accept=J), step('404', 'u', XSS, accept=J)]),
+        seq([step('crash', 'u', ''), step('crash', 'u', '', accept=J)], msg='first <b>'),
+        seq([step('crash', 'u', '', accept=J), step('crash', 'u', '')], msg='first <b>', debug=True),
+        seq([step('404', 'u', '', host='a<b>'), step('404', 'u', '', host='c"d', accept=J), step('404', 'u', '', host='a<b>')]),
+    ]
     out += [
         prim('escape', '&<>"\''), prim('html_escape', '&<>"\''), prim('escape', '&amp;&&lt;'), prim('html_escape', ''),
         prim('repr', ''), prim('repr', "'"), prim('repr', '"'), prim('repr', '\'"'), prim('repr', '\\\n\r\t\x00\x1f\x7f'),
@@ -742,6 +857,46 @@ def _gen_json_text(rng):
     return ''.join(t)
 
 
+def _gen_seq(rng):
+    """2-3 requests on one application: mostly the same URL with the Accept header changing, sometimes other
+    query strings / hosts / kinds"""
+    n = rng.choice([2, 2, 3])
+    base = _gen_request(rng, dict(kind=rng.choice(SEQ_KINDS)))
+    steps = []
+    for i in range(n):
+        s = dict(base)
+        r = rng.random()
+        if r < 0.55:
+            pass                                      # same URL
+        elif r < 0.75:
+            s['qs'] = _gen_latin(rng)
+        elif r < 0.85:
+            s['host'] = _gen_latin(rng, 1, 4)
+        else:
+            s = _gen_request(rng, dict(kind=rng.choice(SEQ_KINDS)))
+        if rng.random() < 0.25:
+            s['kind'] = rng.choice(SEQ_KINDS)
+        s.pop('accept', None)
+        a = rng.random()
+        if a < 0.45:
+            s['accept'] = 'application/json'
+        elif a < 0.6:
+            s['accept'] = rng.choice(['text/html', '*/*', 'application/json; q=0.9', '', 'application/jsonx'])
+        if s['kind'] == '400path':
+            s['tail'] = s['tail'] + rng.choice(['', '\xff', '\x80<'])
+        steps.append(_fit(s))
+    # make sure formats alternate at least once in most sequences
+    if rng.random() < 0.7:
+        j = rng.randrange(n)
+        steps[j].pop('accept', None)
+        steps[(j + 1) % n]['accept'] = 'application/json'
+    c = dict(t='seq', steps=steps, debug=rng.random() < 0.15)
+    if rng.random() < 0.7:
+        c['msg'] = _gen_msg(rng, False)
+    c['tyname'] = rng.choice(TYPES)
+    return c
+
+
 def gen(rng, n):
     for _ in range(n):
         r = rng.random()
@@ -768,7 +923,9 @@ def gen(rng, n):
             if tr == 'errhandler400':
                 c['tail'] = c['tail'] + _junk(rng, HIGH_LATIN + VOCAB, rng.randrange(0, 4))
             yield _fit(c)
-        elif r < 0.9:
+        elif r < 0.84:
+            yield _gen_seq(rng)
+        elif r < 0.93:
             fn = rng.choice(['escape', 'html_escape', 'repr', 'repr', 'dumps', 'dumps'])
             yield prim(fn, _gen_text(rng))
         else:
@@ -788,6 +945,13 @@ def thorough():
         for it in items:
             yield crit(tr, tail=it)
             yield crit(tr, tail=_wire(it))
+    J = 'application/json'
+    for k in SEQ_KINDS:
+        for k2 in SEQ_KINDS:
+            yield seq([step(k, 'u', 'q=<1>'), step(k2, 'u', 'q=<1>', accept=J), step(k, 'u', 'q=<1>')], msg='m')
+        for it in items:
+            yield seq([step(k, 'u', it), step(k, 'u', it, accept=J)], msg='m')
+            yield seq([step(k, 'u', it, accept=J), step(k, 'u', it)], msg='m')
     for it in items + UNI + ['\ud800', '\udc00']:
         for fn in ('escape', 'html_escape', 'repr', 'dumps'):
             yield prim(fn, it)
@@ -804,6 +968,11 @@ def _has_special(s):
 def nontrivial(case, obs):
     if case['t'] == 'prim':
         return _has_special(case['s'])
+    if case['t'] == 'seq':
+        # at least two requests, both formats asked for, request parts with special characters
+        fmts = {(s.get('accept') or '').startswith('application/json') for s in case['steps']}
+        return len(case['steps']) >= 2 and len(fmts) == 2 and any(
+            _has_special(p) for s in case['steps'] for p in _request_parts(s))
     if 'status' not in obs or obs['status'][:1] not in '45':
         return False
     return any(_has_special(p) for p in _request_parts(case))
@@ -812,6 +981,9 @@ def nontrivial(case, obs):
 def key(case):
     if case['t'] == 'prim':
         return ('prim', case['fn'], case['s'])
+    if case['t'] == 'seq':
+        return ('seq', bool(case.get('debug')), case.get('msg'),
+                tuple((s['kind'], (s.get('accept') or ''), tuple(_request_parts(s))) for s in case['steps']))
     fmt = 'json' if (case.get('accept') or '').startswith('application/json') else 'html'
     return (case['t'], case.get('kind') or case.get('trigger'), fmt, bool(case.get('debug')),
             tuple(_request_parts(case)), case.get('msg'))
@@ -822,6 +994,10 @@ def classify(case, obs):
         if case['fn'] == 'loads':
             return 'prim/loads/%s' % ('bad' if obs.get('parsed') == 'bad' else 'ok')
         return 'prim/%s' % case['fn']
+    if case['t'] == 'seq':
+        urls = len({(s['kind'], s['tail'], s.get('qs'), s.get('host')) for s in case['steps']})
+        fm = ''.join('J' if str(o.get('ctype', '')).startswith('application/json') else 'H' for o in obs.get('steps', []))
+        return 'seq/%s/%s/%s' % (fm, 'same-url' if urls == 1 else 'urls-differ', 'debug' if case.get('debug') else 'nodebug')
     fmt = 'json' if str(obs.get('ctype', '')).startswith('application/json') else 'html'
     return '%s/%s/%s/%s/%s' % (case['t'], case.get('kind') or case.get('trigger'), fmt,
                                'debug' if case.get('debug') else 'nodebug', str(obs.get('status', '?'))[:3])
@@ -832,6 +1008,30 @@ def shrink(case):
         s = case['s']
         for i in range(len(s)):
             yield dict(case, s=s[:i] + s[i + 1:])
+        return
+    if case['t'] == 'seq':
+        st = case['steps']
+        if len(st) > 1:
+            for i in range(len(st)):
+                yield dict(case, steps=st[:i] + st[i + 1:])
+        for i in range(len(st)):
+            for k in ('xfh', 'xfp', 'script', 'host', 'port', 'server_name'):
+                if st[i].get(k) is not None:
+                    yield dict(case, steps=[{kk: v for kk, v in s.items() if kk != k} for s in st])
+            for k in ('tail', 'qs'):
+                if st[i].get(k):
+                    # shorten the same field in every request that shares its value (keeps "same URL")
+                    v = st[i][k]
+                    for j in range(len(v)):
+                        nv = v[:j] + v[j + 1:]
+                        if k == 'tail' and st[i]['kind'] not in UNDECODABLE and not _decodable(nv):
+                            continue
+                        yield dict(case, steps=[dict(s, **{k: nv}) if s.get(k) == v else s for s in st])
+        for k in ('msg', 'tyname'):
+            if k in case:
+                yield {kk: v for kk, v in case.items() if kk != k}
+        if case.get('debug'):
+            yield dict(case, debug=False)
         return
     for k in ('xfh', 'xfp', 'script', 'host', 'port', 'server_name', 'accept', 'msg'):
         if case.get(k) is not None:
